@@ -64,3 +64,41 @@ func Equal(a, b interface{}) bool
 func And(a, b bool) bool
 func Or(a, b bool) bool
 func Implies(a, b bool) bool
+
+// ---- environment stubs (symbolic runs) ----
+
+// Register publishes a value to the engine's environment stubs, e.g. the
+// server handler closure for a Diameter command ("diam.server.272").
+func Register(key string, v interface{})
+
+// Config switches a stub behaviour on/off (e.g. "diam.dialMayFail").
+func Config(key string, on bool)
+
+// DBPut / DBGet access the in-memory charging-data table behind mongoapi.
+func DBPut(ueId string, ratingGroup uint32, field string, value string)
+func DBGet(ueId string, ratingGroup uint32, field string) (string, bool)
+func DBWrites() int
+
+// gin.Context response recorder.
+func HTTPStatus(c interface{}) int
+func HTTPWrites(c interface{}) int
+func HTTPHeader(c interface{}, key string) string
+func HTTPBody(c interface{}) interface{}
+func HTTPSetParam(c interface{}, key, value string)
+
+// Notification client recorder.
+func Notifications() int
+func NotificationURI(i int) string
+func NotificationBody(i int) interface{}
+
+func ServerPanicked() bool
+func AnswersWritten() int
+func ConnsOpened() int
+func ConnsLeaked() int
+
+// DiamConn returns a ghost diam.Conn (as interface{}; assert it to diam.Conn).
+func DiamConn() interface{}
+
+// LastAnswer copies the struct carried by the last Diameter answer written by
+// a server handler into dst and reports whether there was one.
+func LastAnswer(dst interface{}) bool
